@@ -915,7 +915,8 @@ Lemma sphinx_F8_in_gap :
 Proof. repeat split; try (vm_compute; reflexivity). vm_compute. discriminate. Qed.
 
 (* non-vacuity: every field kind, a :type: before and one after its :param:, the same name as parameter and attribute
-   with different types, blank lines inside and after descriptions, a deeper-indented line *)
+   with different types, blank lines inside and after descriptions, a deeper-indented line, continuation lines that begin
+   with a colon (an inline role; text that reads like a field) *)
 Definition xsample_ctx : pctx := mkCtx (Some [(s_of "a", (Some (s_of "int"), Some (s_of "1"))); (s_of "b", (None, None))]) (Some []) (RPlain (RPName (s_of "bool"))).
 Definition xsample_text : list str := [s_of "Summary."; []; s_of "More: text."].
 Definition xsample : list xfield :=
@@ -923,7 +924,7 @@ Definition xsample : list xfield :=
    XParam "param" None (s_of "path") (s_of "The path,") [s_of "continued."; []; s_of "    code"; []];
    XVar "ivar" (s_of "path") (s_of "As attribute.") [];
    XVartype (s_of "path") (s_of "pathlib.Path") 0;
-   XParam "arg" None (s_of "b") (s_of "The b.") [];
+   XParam "arg" None (s_of "b") (s_of "The b, a") [s_of ":class:`Foo` or"; s_of "    :param x: not a field."];
    XType (s_of "b") (s_of "list of int") 0;
    XParam "keyword" (Some (s_of "float")) (s_of "a") (s_of "The a.") [];
    XRaises "raises" (s_of "ValueError") (s_of "When bad.") [[]];
@@ -939,7 +940,7 @@ Example xsample_parsed :
 More: text.");
    GItems KParams None
      [mkItem (Some (s_of "path")) (Some (s_of "str")) (s_of "The path, continued.  code") None;
-      mkItem (Some (s_of "b")) (Some (s_of "list of int")) (s_of "The b.") None;
+      mkItem (Some (s_of "b")) (Some (s_of "list of int")) (s_of "The b, a :class:`Foo` or :param x: not a field.") None;
       mkItem (Some (s_of "a")) (Some (s_of "float")) (s_of "The a.") (Some (s_of "1"))];
    GItems KAttrs None [mkItem (Some (s_of "path")) (Some (s_of "pathlib.Path")) (s_of "As attribute.") None];
    GItems KReturns None [mkItem (Some []) (Some (s_of "None")) (s_of "Nothing: really.") None];
